@@ -743,10 +743,12 @@ func (r *rateLimiter) calculateUpstreamCondition(limitStore _interface.LimitStor
 			if !ok {
 				continue
 			}
+			// a condition stored before the schema changed its type still carries
+			// a status of the old type: it has no share in the new limit
 			switch {
-			case status.MaxRequestsInflight != nil:
+			case status.MaxRequestsInflight != nil && flowControlConfig.MaxRequestsInflight != nil:
 				level += float64(status.MaxRequestsInflight.Max) / float64(flowControlConfig.MaxRequestsInflight.Max)
-			case status.TokenBucket != nil:
+			case status.TokenBucket != nil && flowControlConfig.TokenBucket != nil:
 				level += float64(status.TokenBucket.QPS) / float64(flowControlConfig.TokenBucket.QPS)
 			}
 			requestLevelMap[status.Name] = level
